@@ -550,3 +550,175 @@ def rf24(run):
                                   'pointers, so the look-up misses an existing entry and a second entry shadows or loses the definition'
                                   % (f.name, F.src(arg)[:40], why), line=c['l'])
     return n
+
+
+# ---------------------------------------------------------------------------------------------
+# RF16j: label forwarding pointers (insn->data) used during duplication are scrubbed
+# ---------------------------------------------------------------------------------------------
+
+def _is_insn_data_store(tu, x):
+    """`<MIR_insn_t expr>->data = v` -> (base text, value node) or None"""
+    if x['k'] != 'BinaryOperator' or x['op'] != '=':
+        return None
+    l = F.strip(x['c'][0])
+    if l['k'] != 'MemberExpr' or l['n'] != 'data' or not l.get('arrow'):
+        return None
+    b = F.strip(l['c'][0])
+    bt = tu.type(b['t']).s if 't' in b else ''
+    if 'MIR_insn' not in bt and 'MIR_label_t' not in bt:
+        return None
+    return F.src(b), x['c'][1]
+
+
+def rf16j(run):
+    rule = 'RF16j'
+    run.rule(rule, 'mir.c uses MIR_insn_t.data of the *original* labels as a forwarding pointer while instructions are copied. Every '
+                   'function that stores a non-null value there either scrubs it itself (a later loop over the same list storing NULL '
+                   'under the same test) or records the label, in the same basic block, in a VARR parameter; every caller passes a '
+                   'non-null VARR there and, on every path from that call to its exit, hands the same VARR to a drain function whose '
+                   'scrub loop (pop; ->data = NULL until empty) lies on every entry-exit path')
+    tu = run.tu('mir')
+    stores = []  # (func, node, base, value)
+    for f in tu.funcs.values():
+        if not f.relfile().endswith('mir.c') or f.body is None:
+            continue
+        for x in f.walk():
+            r = _is_insn_data_store(tu, x)
+            if r:
+                stores.append((f, x, r[0], r[1]))
+    setters = [(f, x, b, v) for f, x, b, v in stores if F.const_value(v) != 0]
+    scrubs = [(f, x, b) for f, x, b, v in stores if F.const_value(v) == 0]
+    if len(setters) < 2:
+        raise F.AnalysisBroken('only %d forwarding stores into MIR_insn_t.data found in mir.c (2 confirmed by hand)' % len(setters))
+    # drain functions: scrub store whose base was popped from a VARR parameter in the same block, loop on length != 0
+    drains = {}
+    for f, x, b in scrubs:
+        cfg = f.cfg
+        blk = cfg.block_of(x)
+        if blk is None:
+            continue
+        B = cfg.blocks[blk]
+        pops = [y for e in B.elems for y in cfg.local_walk(e) if y['k'] == 'CallExpr' and (y.get('callee') or '').startswith('VARR_') and (y.get('callee') or '').endswith('pop')]
+        arr = None
+        for p in pops:
+            par = f.parent_of(p)
+            while par is not None and par['k'] in ('ImplicitCastExpr', 'ParenExpr', 'CStyleCastExpr'):
+                par = f.parent_of(par)
+            if par is not None and par['k'] == 'BinaryOperator' and par['op'] == '=' and F.src(F.strip(par['c'][0])) == b:
+                a0 = F.strip(F.call_args(p)[0])
+                if a0['k'] == 'DeclRefExpr' and a0['n'] in [q['n'] for q in f.params]:
+                    arr = a0['n']
+        if arr is None:
+            continue
+        # loop header: a predecessor-dominating block whose condition is length(arr) != 0 with the scrub block on its true edge
+        hdr = None
+        for H in cfg.blocks.values():
+            if H.cond is not None and len(H.succs) == 2 and H.succs[0] == blk:
+                c = F.src(F.strip(H.cond))
+                if 'length' in c and arr in c and '!= 0' in c:
+                    hdr = H
+        if hdr is None:
+            continue
+        # the header lies on every entry-exit path, and the body always returns to the header
+        all_paths = cfg.exit not in cfg.reachable_from(cfg.entry, avoid=lambda q: q == hdr.id)
+        body_back = cfg.exit not in cfg.reachable_from(blk, avoid=lambda q: q == hdr.id) if blk != hdr.id else True
+        ok = all_paths and body_back
+        idx = [q['n'] for q in f.params].index(arr)
+        run.ob(rule, ('drain', f.name), ok, {'function': f.name, 'array parameter': arr, 'scrub loop on every path': all_paths,
+                                             'loop body always returns to the emptiness test': body_back})
+        if ok:
+            drains[f.name] = idx
+        else:
+            run.violation(rule, f, 'scrub loop of %s' % arr, '%s can return without emptying %s: the labels recorded there keep a dangling '
+                          'forwarding pointer in ->data (later copies of the label inherit it)' % (f.name, arr), line=x['l'])
+    run.functions_analysed.update(('mir', n) for n in drains)
+    for f, x, b, v in setters:
+        run.functions_analysed.add(('mir', f.name))
+        cfg = f.cfg
+        blk = cfg.block_of(x)
+        if blk is None:
+            raise F.AnalysisBroken('%s: forwarding store not in the CFG' % f.name)
+        B = cfg.blocks[blk]
+        # (a) self-scrubbing: a NULL store in the same function under the same dominating conditions, not reachable back to the setter
+        own = [s for s in scrubs if s[0] is f]
+        if own:
+            def guards(b_):
+                # every dominating test except the exits of earlier list walks (`x != 0` false)
+                return sorted({c for c in dominating_conditions(cfg, b_) if not (not c[1] and c[0].endswith('!= 0)'))})
+            conds = guards(blk)
+            ok = False
+            for _, sx, sb in own:
+                sblk = cfg.block_of(sx)
+                sconds = guards(sblk)
+                # same guards, scrub loop after the setter loop: exit is reachable from the setter only through the scrub loop's header
+                if sconds == conds and sblk != blk and blk not in cfg.reachable_from(sblk):
+                    hdrs = _loop_headers_of(cfg, sblk)
+                    shdrs = _loop_headers_of(cfg, blk)
+                    same_iter = _loop_signature(cfg, hdrs) == _loop_signature(cfg, shdrs)
+                    outer = [h for h in hdrs if h not in shdrs]
+                    noret = {q for q in cfg.blocks if cfg.blocks[q].noreturn}  # error exits abandon the load
+                    through = bool(outer) and cfg.exit not in cfg.reachable_from(blk, avoid=lambda q: q in outer or q in noret)
+                    if same_iter and through:
+                        ok = True
+            run.ob(rule, ('self-scrub', f.name, x['l']), ok, {'function': f.name, 'store': F.src(x), 'scrubbed by a later loop over the same list': ok})
+            if not ok:
+                run.violation(rule, f, 'forwarding store %s' % F.src(x), '%s stores a forwarding value into %s->data but no later loop over the same '
+                              'list under the same test resets it on every path' % (f.name, b), line=x['l'])
+            continue
+        # (b) recorded in a VARR parameter in the same block
+        rec = None
+        for e in B.elems:
+            for y in cfg.local_walk(e):
+                if y['k'] == 'CallExpr' and (y.get('callee') or '').startswith('VARR_') and (y.get('callee') or '').endswith('push'):
+                    a = [F.strip(z) for z in F.call_args(y)]
+                    if len(a) == 2 and F.src(a[1]) == b and a[0]['k'] == 'DeclRefExpr' and a[0]['n'] in [q['n'] for q in f.params]:
+                        rec = a[0]['n']
+        run.ob(rule, ('recorded', f.name, x['l']), rec is not None, {'function': f.name, 'store': F.src(x), 'recorded in': rec})
+        if rec is None:
+            run.violation(rule, f, 'forwarding store %s' % F.src(x), '%s stores a forwarding value into %s->data without unconditionally recording '
+                          '%s in a VARR parameter: nothing can reset it afterwards' % (f.name, b, b), line=x['l'])
+            continue
+        pidx = [q['n'] for q in f.params].index(rec)
+        ncall = 0
+        for g in tu.funcs.values():
+            if g.body is None:
+                continue
+            for y in g.walk():
+                if y['k'] == 'CallExpr' and y.get('callee') == f.name:
+                    ncall += 1
+                    run.functions_analysed.add(('mir', g.name))
+                    arg = F.strip(F.call_args(y)[pidx])
+                    atxt = F.src(arg)
+                    gcfg = g.cfg
+                    cb = gcfg.block_of(y)
+                    nonnull = F.const_value(arg) != 0
+                    dblocks = set()
+                    for dn, di in drains.items():
+                        dblocks |= rf_flow.blocks_with(gcfg, lambda z: z['k'] == 'CallExpr' and z.get('callee') == dn
+                                                       and F.src(F.strip(F.call_args(z)[di])) == atxt)
+                    ok = nonnull and cb is not None and bool(dblocks) and cb not in dblocks and must_pass_between(gcfg, cb, dblocks, [gcfg.exit])
+                    run.ob(rule, ('caller', g.name, y['l']), ok, {'caller': g.name, 'line': y['l'], 'array': atxt, 'non-null': nonnull,
+                                                                  'drained on every path to the exit': ok})
+                    if not ok:
+                        run.violation(rule, g, 'call of %s at line %d' % (f.name, y['l']),
+                                      '%s passes %s to %s but %s' % (g.name, atxt, f.name,
+                                                                    'that is a null array: the labels are not recorded' if not nonnull else
+                                                                    'some path to its exit does not hand that array to %s: original labels keep '
+                                                                    'pointing at their copies' % '/'.join(sorted(drains) or ['a drain function'])), line=y['l'])
+        if ncall < 2:
+            raise F.AnalysisBroken('only %d callers of %s found (3 confirmed by hand)' % (ncall, f.name))
+    run.min_instances(rule, 6)
+
+
+def _loop_headers_of(cfg, blk):
+    """ids of condition blocks that blk can reach and that can reach blk (loop headers around blk)"""
+    out = []
+    for H in cfg.blocks.values():
+        if H.cond is not None and len(H.succs) == 2 and H.id != blk:
+            if H.id in cfg.reachable_from(blk) and blk in cfg.reachable_from(H.id):
+                out.append(H.id)
+    return out
+
+
+def _loop_signature(cfg, hdrs):
+    return sorted(F.src(F.strip(cfg.blocks[h].cond)) for h in hdrs)
